@@ -4,7 +4,7 @@
 //@ fn rank_sel::rank_small::Block32Counters<1,10>::{all_rel,rel,set_rel}
 //@ fn rank_sel::rank_small::Block32Counters<1,11>::{all_rel,rel,set_rel}
 //@ fn rank_sel::rank_small::Block32Counters<3,13>::{all_rel,rel,set_rel}
-//@ harness consts_match props=C01 timeout=300
+//@ harness consts_match props=C01,C11 timeout=300
 //@ harness counters_2_9 props=C01,C12 timeout=300
 //@ harness counters_1_9 props=C01,C12 timeout=300
 //@ harness counters_1_10 props=C01,C12 timeout=300
@@ -56,6 +56,14 @@ mod verif_kani_counters {
         assert!(RankSmall::<1, 11, BitVec, Box<[usize]>, Box<[Block32Counters<1, 11>]>>::WORDS_PER_SUBBLOCK == 8);
         assert!(RankSmall::<3, 13, BitVec, Box<[usize]>, Box<[Block32Counters<3, 13>]>>::WORDS_PER_BLOCK == 128);
         assert!(RankSmall::<3, 13, BitVec, Box<[usize]>, Box<[Block32Counters<3, 13>]>>::WORDS_PER_SUBBLOCK == 16);
+        // space (C11): one counter block per WORDS_PER_BLOCK words takes 4 * (NUM_U32S + 1) bytes, no padding:
+        // 12/64 = 18.75%, 8/64 = 12.5%, 8/128 = 6.25%, 8/256 = 3.125%, 16/1024 = 1.5625% of the bit vector
+        assert!(core::mem::size_of::<Block32Counters<2, 9>>() == 12);
+        assert!(core::mem::size_of::<Block32Counters<1, 9>>() == 8);
+        assert!(core::mem::size_of::<Block32Counters<1, 10>>() == 8);
+        assert!(core::mem::size_of::<Block32Counters<1, 11>>() == 8);
+        assert!(core::mem::size_of::<Block32Counters<3, 13>>() == 16);
+        assert!(core::mem::size_of::<crate::rank_sel::rank9::BlockCounters>() == 16);
     }
     counters_harness!(counters_2_9, 2, 9, 8, 64);
     counters_harness!(counters_1_9, 1, 9, 4, 128);
